@@ -31,7 +31,7 @@ import time
 import traceback
 
 VERIF_DIR = os.path.dirname(os.path.dirname(os.path.abspath(__file__)))
-OUT_DIR = os.path.join(VERIF_DIR, "out")
+OUT_DIR = os.environ.get("VERIF_OUT_DIR") or os.path.join(VERIF_DIR, "out")
 
 CHECK_MODULES = {
     "C01": "checks.c01_first_order",
@@ -524,6 +524,9 @@ def main(argv=None):
         print(f"replay passed: {args.replay}")
         return 0
 
+    # violations of earlier runs of this property are stale once a new run starts
+    import shutil
+    shutil.rmtree(os.path.join(OUT_DIR, "violations", prop), ignore_errors=True)
     max_seconds = args.max_seconds or (900 if args.tier == "quick" else 6 * 3600)
     deadline_ts = t0 + max_seconds
     subs = _subchecks(mod)
